@@ -24,6 +24,20 @@ Theorem C04_term_flag :
 Proof. exact env_term_flag. Qed.
 Print Assumptions C04_term_flag.
 
+(* what the flag says, for EVERY instance and initial state (after fix 7fd110d; before it the flag read the locations
+   only, and a job that STARTED in an output buffer with pending operations made it true - the hypothesis fresh2_b of
+   the theorems below excluded exactly that, see DESIGN.md 9.4) *)
+Theorem C04_flag_means_delivered_and_done :
+  forall (i : inst) (x : state),
+    all_in_output i x = true <->
+    (forall jb, In jb (s_jobs x) -> is_output i (j_loc jb) = true /\ all_operations_done jb = true).
+Proof.
+  intros i x. unfold all_in_output. rewrite forallb_forall. split; intros H jb Hin; specialize (H jb Hin).
+  - apply andb_true_iff in H. exact H.
+  - apply andb_true_iff. exact H.
+Qed.
+Print Assumptions C04_flag_means_delivered_and_done.
+
 Theorem C04_makespan_is_clock :
   forall e, e_term e = true -> env_makespan e = Some (s_now (r_x (e_res e))).
 Proof. exact env_makespan_is_clock. Qed.
